@@ -127,6 +127,65 @@ def _fold_opts(live: T, on: Dict[str, bool], default: Optional[bool]):
     return None
 
 
+def _bool_under(t: T, env: Dict[str, bool]):
+    """truth value of a term over args.<option> flags, constants and
+    boolean connectives for one assignment of the flags; None otherwise"""
+    t = Interp.unname(t)
+    if tm.is_const(t):
+        v = tm.const_val(t)
+        return bool(v) if isinstance(v, (bool, int, type(None))) else None
+    if t.op == "attr" and t.args[0] is tm.param("args"):
+        return env.get(t.args[1])
+    if (t.op == "unop" and t.args[0] == "Not") or t.op == "not":
+        v = _bool_under(t.args[-1], env)
+        return None if v is None else not v
+    if t.op == "boolop" or t.op in ("and", "or"):
+        kind = t.args[0] if t.op == "boolop" else t.op.capitalize()
+        parts = t.args[1] if t.op == "boolop" else t.args
+        vs = [_bool_under(x, env) for x in parts]
+        if None in vs:
+            return None
+        return all(vs) if kind == "And" else any(vs)
+    if t.op == "ite":
+        c_ = _bool_under(t.args[0], env)
+        return None if c_ is None else _bool_under(
+            t.args[1 if c_ else 2], env)
+    if is_call_to(t, "builtins.bool") and len(t.args[1]) == 1:
+        return _bool_under(t.args[1][0], env)
+    return None
+
+
+def _equal_under(live: T, got: T, want: T):
+    """do two flag expressions agree wherever the call is reachable? True /
+    False (they differ in a reachable world) / None (not evaluable)"""
+    import itertools
+    names = sorted({x.args[1] for t in (got, want) for x in t.walk()
+                    if x.op == "attr" and x.args[0] is tm.param("args")})
+    if not names or len(names) > 6:
+        return None
+    for bits in itertools.product((False, True), repeat=len(names)):
+        env = dict(zip(names, bits))
+        if _fold_opts(live, env, None) is False:
+            continue
+        a, b = _bool_under(got, env), _bool_under(want, env)
+        if a is None or b is None:
+            return None
+        if a != b:
+            return False
+    return True
+
+
+class _LiveView:
+    """an event seen under another path condition (the disjunction over
+    the alternative call sites of a step)"""
+
+    def __init__(self, e, live):
+        self._e, self.live = e, live
+
+    def __getattr__(self, k):
+        return getattr(self._e, k)
+
+
 def check(ctx):
     prog = ctx.prog
     f = prog.func(RUN)
@@ -167,8 +226,37 @@ def check(ctx):
     # --------------------------------------------------------------- C15.2
     all_opts = sorted({o for v in OPTION_OF.values() for o in v})
     for name, opts in OPTION_OF.items():
+        # several call sites of one step on the same object (one per branch
+        # of an if / elif over the options) are alternatives: the step runs
+        # where any of them runs
+        groups: dict = {}
         for e in step_events[name]:
-            off = _fold_opts(e.live, {o: False for o in opts}, None)
+            b_ = e.data.get("bound") or {}
+            subj = b_.get("traj") if "traj" in b_ else e.data.get("recv")
+            groups.setdefault(id(subj) if e.kind == "call" else id(e),
+                              []).append(e)
+        for e in step_events[name]:
+            b_ = e.data.get("bound") or {}
+            subj = b_.get("traj") if "traj" in b_ else e.data.get("recv")
+            grp = groups[id(subj) if e.kind == "call" else id(e)]
+            elive = e.live
+            e_own = e
+            if len(grp) > 1:
+                if e is not grp[0]:
+                    # judged once per group, with the first site
+                    off = _fold_opts(e.live, {o: False for o in opts}, None)
+                    ctx.ob("C15.2", e, off is False,
+                           f"`{name}` at {e.where} is disabled when "
+                           f"{'/'.join('--' + o for o in opts)} is not given"
+                           if off is False else
+                           f"`{name}` at {e.where} can run although "
+                           f"{'/'.join('--' + o for o in opts)} is not "
+                           f"given", key=f"C15.2:{name}:needs-own-option",
+                           live=fmt(e.live))
+                    continue
+                elive = tm.mk_or(*[x.live for x in grp])
+            e = _LiveView(e_own, elive)
+            off = _fold_opts(e_own.live, {o: False for o in opts}, None)
             ctx.ob("C15.2", e, off is False,
                    f"`{name}` at {e.where} is disabled when "
                    f"{'/'.join('--' + o for o in opts)} is not given"
@@ -297,6 +385,9 @@ def check(ctx):
         b = e.data.get("bound") or {}
         got = b.get(pname)
         ok = got is want or (got is not None and timed(got) is want)
+        if not ok and got is not None and \
+                _equal_under(e.live, got, want) is True:
+            ok = True     # the same flag value wherever this site is reached
         ctx.ob("C15.3", e, ok,
                f"{what}: {pname} <- {fmt(want)}" if ok else
                f"{what}: parameter `{pname}` receives {fmt(got)}, expected "
@@ -411,7 +502,13 @@ def check(ctx):
         cos = bb.get("correct_only_scale")
         want = T("boolop", "And", (A("correct_scale"),
                                     T("unop", "Not", A("align"))))
-        ok = cos is want
+        if cos is None and e.data.get("target") is not None:
+            import ast as _ast
+            d_ = e.data["target"].defaults().get("correct_only_scale")
+            if isinstance(d_, _ast.Constant):
+                cos = const(d_.value)     # not passed: the callee's default
+        ok = cos is want or (cos is not None and
+                             _equal_under(e.live, cos, want) is True)
         ctx.ob("C15.3", e, ok,
                "align: correct_only_scale <- correct_scale and not align"
                if ok else f"align: correct_only_scale is {fmt(cos)}",
